@@ -166,13 +166,13 @@ def main(ctx, args):
             problems += compare_stream(ctx, "corpus-prog", ["prog-lines"], stats, stdin_data=pdata)
         quick = ctx.tier == "quick"
         jobs = []
-        nh = 8 if quick else 32
+        nh = 16 if quick else 64
         for i in range(nh):
-            jobs.append((f"handle{i}", ["handle", str(ctx.seed * 1000 + i), str(5000 if quick else 40000), str(8 + 12 * (i % 8))]))
-        npj = 48 if quick else 128
+            jobs.append((f"handle{i}", ["handle", str(ctx.seed * 1000 + i), str(10000 if quick else 40000), str(8 + 12 * (i % 8))]))
+        npj = 64 if quick else 256
         for i in range(npj):
-            ticks = (64, 64, 64, 128)[i % 4] if quick else (64, 128, 256, 512)[i % 4]
-            jobs.append((f"prog{i}", ["prog", str(ctx.seed * 1000 + 500 + i), str(25 if quick else 80), str(ticks)]))
+            ticks = (64, 64, 128, 256)[i % 4] if quick else (64, 128, 256, 512)[i % 4]
+            jobs.append((f"prog{i}", ["prog", str(ctx.seed * 1000 + 500 + i), str(40 if quick else 200), str(ticks)]))
 
         def work(job):
             st = new_stats()
